@@ -37,6 +37,9 @@ type FetchResp struct {
 	// KeepOpen (with Cut / CutFn): the frame stops after the cut but the connection stays open and silent — a host that
 	// vanished without FIN / RST
 	KeepOpen bool
+	// LSO: the last stable offset reported (fetch v4+); nil = the high watermark.  Below the high watermark while a
+	// transaction is open: with the default isolation level the records up to the high watermark are returned all the same.
+	LSO *int64
 	// Chunk > 0: the response frame reaches the client in pieces of Chunk bytes (net.Pipe hands every Write to the
 	// reader as its own Read: the client's bufio.Reader is refilled at exactly these boundaries — inside the size
 	// prefix, inside fixed-width fields, inside varints)
@@ -253,7 +256,11 @@ func (b *Broker) serve(c net.Conn, id int, addr string) {
 			be16(&body, p.Err)
 			be64(&body, p.Hwm)
 			if ver >= 4 {
-				be64(&body, p.Hwm) // last stable offset
+				lso := p.Hwm
+				if p.LSO != nil {
+					lso = *p.LSO
+				}
+				be64(&body, lso) // last stable offset
 			}
 			if ver >= 5 {
 				be64(&body, 0) // log start offset
